@@ -253,11 +253,49 @@ func vGhostGoroutines() int {
 	buf = buf[:runtime.Stack(buf, true)]
 	n := 0
 	for _, g := range strings.Split(string(buf), "\n\n") {
-		if strings.Contains(g, "websocket.(*Conn).timeoutLoop") || strings.Contains(g, "websocket.(*Conn).CloseRead.func1") {
+		if vCreatedByLibrary(g) {
 			n++
 		}
 	}
 	return n
+}
+
+// vCreatedByLibrary: the goroutine (one block of a runtime.Stack dump) was started by a function of the library, not by
+// a harness function (verif*, v<Upper>*, Verif*) or a test of this package.
+func vCreatedByLibrary(g string) bool {
+	const marker = "created by nhooyr.io/websocket"
+	i := strings.Index(g, marker)
+	if i < 0 {
+		return false
+	}
+	rest := g[i+len(marker):]
+	if strings.HasPrefix(rest, "/") {
+		// a sub-package: internal/xsync.Go is the library's; wsjson harness code does not start goroutines
+		return strings.HasPrefix(rest, "/internal/")
+	}
+	rest = strings.TrimPrefix(rest, ".")
+	if j := strings.IndexAny(rest, " \n"); j >= 0 {
+		rest = rest[:j]
+	}
+	// strip a receiver: (*Conn).close -> close (methods of harness types are the harness's)
+	if k := strings.LastIndex(rest, ")."); k >= 0 {
+		recv := strings.TrimLeft(rest[:k], "(*")
+		if len(recv) >= 2 && recv[0] == 'v' && recv[1] >= 'A' && recv[1] <= 'Z' {
+			return false
+		}
+		rest = rest[k+2:]
+	}
+	name := rest
+	if k := strings.Index(name, "."); k >= 0 {
+		name = name[:k] // closures: CloseRead.func1 -> CloseRead
+	}
+	switch {
+	case strings.HasPrefix(name, "verif"), strings.HasPrefix(name, "Verif"), strings.HasPrefix(name, "Test"), strings.HasPrefix(name, "replay"):
+		return false
+	case len(name) >= 2 && name[0] == 'v' && name[1] >= 'A' && name[1] <= 'Z':
+		return false
+	}
+	return true
 }
 
 // vObserve records values that are compared between the engine's evaluation under a model and the native run.
